@@ -200,7 +200,7 @@ def check_methods(rep, cfg, loc):
             continue       # the other backend's wrapper is compiled but is not this build's field
         name = path.split("::")[-1]
         tr = b.get("impl_trait_def", "")
-        if tr and tr not in ("ark_ff::Field", "ark_ff::Zero", "ark_ff::One"):
+        if tr and tr not in ("ark_ff::Field", "ark_ff::Zero", "ark_ff::One", "core::default::Default"):
             continue
         S_ = mk("param", "self")
         O_ = mk("param", "other")
@@ -226,6 +226,8 @@ def check_methods(rep, cfg, loc):
             want = [felem(f, 0)]
         elif name == "one" and tr == "ark_ff::One":
             want = [felem(f, 1)]
+        elif name == "default" and tr == "core::default::Default":
+            want = [felem(f, 0)]      # arkworks' convention (Fp::default() is zero); generic code starts sums and buffers from it
         else:
             continue
         n += 1
@@ -427,9 +429,80 @@ def check_inverse(rep, cfg, loc):
             ci = cfg.prog.consts.get(p + "::I")
             bits = K.MODULI[f].bit_length()
             wantI = (49 * bits + 57) // 17
+            ok_df, why_df = by_dataflow(out, f, S_, wantI, some_flows)
+            rep.ob(key + ":dataflow", ok_df, "Bernstein-Yang inversion: (d,f,g,v,r) must start at (1, msat, self's canonical limbs zero-extended, 0, R) and be carried "
+                   "through I divsteps, and the result must be precomp * (v negated when f's sign bit is set): %s" % why_df, where=cfg.where(p))
             rep.ob(key + ":iterations", ci is not None and K.vint(ci["value"]["val"]) == wantI,
                    "divstep iteration count I must be (49*%d+57)/17 = %d for this field; evaluated constant: %s" % (bits, wantI, ci["value"]["val"].get("int") if ci else None),
                    where=ci["sp"] if ci else cfg.where(p), sample={"obligation": key + ":iterations", "I": wantI})
+
+
+def by_dataflow(out, f, S_, wantI, some_flows):
+    """the data flow of the safegcd driver around fiat's divstep (the loop is not unrolled: one iteration's state transformer is judged)"""
+    N32 = LIMBS64[f] * 2
+    ws = [(a, site) for pc, kind, a, site in out.effects if kind == "while_state" and any(po is not None and any(u.op == "fiat_divstep" for u in Tm.subterms(po)) for po in a[2])]
+    if len(ws) != 1:
+        return False, "expected exactly one loop around divstep, found %d" % len(ws)
+    (entry, syms, post), site = ws[0]
+    if any(po is None for po in post):
+        return False, "the loop body does not fall through"
+    ent, pst = dict(zip(syms, entry)), dict(zip(syms, post))
+    firsts = [u for po in post for u in Tm.subterms(po) if u.op == "fiat_divstep" and all(x in ent for x in u.args[1:])]
+    firsts = list({id(u): u for u in firsts}.values())
+    if len(firsts) != 1 or len(set(firsts[0].args[1:])) != 5 or firsts[0].args[0] != f:
+        return False, "no single divstep applied to the five carried values (d, f, g, v, r)"
+    D1 = firsts[0]
+    st = list(D1.args[1:])
+    D2 = mk("fiat_divstep", f, *[mk("out", D1, k) for k in range(5)])
+    two = all(pst[st[k]] is mk("out", D2, k) for k in range(5))
+    one = all(pst[st[k]] is mk("out", D1, k) for k in range(5))
+    if not (two or one):
+        return False, "after one pass of the loop the carried (d, f, g, v, r) must be the outputs 0..4 of divstep (applied once or twice) in this order; got %s" % [Tm.show(pst[x], maxdepth=2) for x in st]
+    step = 2 if two else 1
+    ctr = [c for c in syms if ent[c] is lit(0) and pst[c] is Tm.intop("iadd", c, lit(step))]
+    bound = [c_.args[0].args[1] for c_ in (site.get("pc_after") or ()) if c_.op == "not" and c_.args[0].op == "ge" and c_.args[0].args[0] in ctr and Tm.is_lit(c_.args[0].args[1])]
+    want_bound = wantI - wantI % step
+    if len(bound) != 1 or bound[0].args[0] != want_bound:
+        return False, "the loop must run while a counter starting at 0 and advancing by %d is below %d; counters %s, bounds %s" % (step, want_bound, [Tm.show(c) for c in ctr], [Tm.show(b) for b in bound])
+    d0, f0, g0, v0, r0 = [ent[x] for x in st]
+
+    def zeros(t, n):
+        return (t.op == "repeat" and t.args[0] is lit(0) and t.args[1] == n) or (t.op == "array" and len(t.args) == n and all(x is lit(0) for x in t.args))
+
+    def self_limb(t, k):
+        if not (t.op == "index" and t.args[1] is lit(k)):
+            return False
+        b = t.args[0]
+        if b.op == "struct" and len(b.args) == 3:
+            b = b.args[2]
+        return b is mk("canon32", S_)
+    if d0 is not lit(1):
+        return False, "d must start at 1; got %s" % Tm.show(d0)
+    if f0 is not mk("fiat_msat", f):
+        return False, "f must start at msat() (the modulus); got %s" % Tm.show(f0, maxdepth=3)
+    if not (g0.op == "array" and len(g0.args) == N32 + 1 and all(self_limb(g0.args[k], k) for k in range(N32)) and g0.args[N32] is lit(0)):
+        return False, "g must start as the %d canonical (non-Montgomery) limbs of self followed by a zero limb; got %s" % (N32, Tm.show(g0, maxdepth=3))
+    if not zeros(v0, N32):
+        return False, "v must start at 0; got %s" % Tm.show(v0, maxdepth=3)
+    if r0 is not mk("mont", felem(f, 1)):
+        return False, "r must start at the Montgomery form of 1; got %s" % Tm.show(r0, maxdepth=3)
+    if wantI % step:
+        D3 = D1
+        Vf, Ff = mk("out", D3, 3), mk("out", D3, 1)
+    else:
+        Vf, Ff = st[3], st[1]
+    sbit = mk("cast", "u8", Tm.intop("band", Tm.intop("shr", Tm.index(Ff, lit(N32)), lit(31)), lit(1)))
+    negv = mk("mont", mk("neg", mk("unmont", Vf)))
+    want = mk("mont", mk("mul", mk("unmont", Tm.ite(Tm.ne(sbit, lit(0)), negv, Vf)), mk("unmont", mk("fiat_divstep_precomp", f))))
+    vals = []
+    for pc, v in some_flows:
+        x = v.args[1]
+        while x.op == "struct" and len(x.args) == 3:
+            x = x.args[2]
+        vals.append(x)
+    if not vals or any(x is not want for x in vals):
+        return False, "result must be mont(precomp * (sign bit of f[%d] set ? -v : v)); got %s" % (N32, [Tm.show(x, maxdepth=7) for x in vals][:1])
+    return True, "one loop, %d divstep(s) per pass, %d passes, state threaded in order, sign-corrected v times precomp" % (step, want_bound // step)
 
 
 # ---- selection / constant-time equality / DOM ----------------------------------------------------------------
